@@ -61,7 +61,34 @@ func Names(max int) *rapid.Generator[[]string] {
 // an optional trailing partial name, and — with hostile — the grey/malformed
 // variants (forward pointers, pointers into the middle of a label, pointer
 // chains, reserved label types, truncation, pointers beyond the buffer).
-func LabelWire(hostile bool) *rapid.Generator[[]byte] {
+func LabelWire(hostile bool) *rapid.Generator[[]byte] { return labelWire(hostile, true) }
+
+// LabelWireNoDots is LabelWire without '.' octets inside labels: for checks that edit the parsed names as text,
+// where a dot inside a label cannot be told from a label boundary.
+func LabelWireNoDots(hostile bool) *rapid.Generator[[]byte] { return labelWire(hostile, false) }
+
+// wireLabelContent occasionally replaces a drawn label by content that is legal on the wire (RFC 1035 section 3.1:
+// a label is any octets) but hostile to code that handles names as dotted text: a '.' octet inside, at the start
+// or at the end of a label, a label that is just ".", NUL and upper-case octets.
+func wireLabelContent(t *rapid.T, l string) string {
+	switch rapid.IntRange(0, 29).Draw(t, "wirecontent") {
+	case 0:
+		return l + "." + l
+	case 1:
+		return "." + l
+	case 2:
+		return l + "."
+	case 3:
+		return "."
+	case 4:
+		return l + "\x00"
+	case 5:
+		return strings.ToUpper(l)
+	}
+	return l
+}
+
+func labelWire(hostile, dotted bool) *rapid.Generator[[]byte] {
 	return rapid.Custom(func(t *rapid.T) []byte {
 		var b []byte
 		var bounds []int // label-start offsets of directly written names
@@ -81,6 +108,9 @@ func LabelWire(hostile bool) *rapid.Generator[[]byte] {
 			var mine []int
 			for k := 0; k < nl; k++ {
 				l := Label().Draw(t, "label")
+				if dotted && len(l) < 30 {
+					l = wireLabelContent(t, l)
+				}
 				if full { // names at and around the 255-octet limit: labels of 61..63 octets
 					l = strings.Repeat("x", rapid.IntRange(61, 63).Draw(t, "fulllen"))
 				}
